@@ -58,6 +58,8 @@ class C20(Check):
             nconn = rng.choice([1, 2, 3])
             shape['nconn'] = nconn
             shape['poll_logs'] = rng.random() < 0.4
+            # a module which is not exported (an internal helper): not in the description, but it logs like the others
+            shape['hidden'] = rng.choice([None, None, 'm0', 'm1'])
             for c in range(nconn):
                 for _ in range(rng.randrange(1, 7)):
                     kind = rng.choice(['logging', 'logging', 'logging', 'logging', 'idn', 'ping', 'close'])
@@ -124,7 +126,8 @@ class C20(Check):
         world = ctx['world'] = env.World(sim, shape['seg_bias'], shape['lat_bias'])
         specs = []
         for i in range(2):
-            specs.append({'name': f'm{i}', 'base': 'Readable', 'export': True, 'cmds': [], 'pollinterval': 0.3,
+            specs.append({'name': f'm{i}', 'base': 'Readable', 'export': shape.get('hidden') != f'm{i}', 'cmds': [],
+                          'pollinterval': 0.3,
                           'enablePoll': shape['poll_logs'],
                           'params': [{'name': 'value', 'di': {'type': 'double'}, 'read': True, 'readonly': True,
                                       'default': None, 'init': 0.0, 'export': True}]})
